@@ -160,3 +160,56 @@ def order_obligations(ck, rule, tm, label="trampoline-before-entry"):
                       len(tr), len(late), "" if not late else ": a call arriving in between executes an unwritten (zero-filled) trampoline"),
                   where(late[0][0]) if late else where(ent[0][0]))
     return n
+
+
+SCRATCH = {"x86_64": {"rax", "r10", "r11"}, "aarch64": {"x%d" % i for i in range(9, 18)}, "arm": {"r12"}}
+RESULT = {"x86_64": {"rax"}, "aarch64": {"x0"}, "arm": {"r0"}}
+
+
+def convention_obligations(ck, rules, tm, want=lambda r: True):
+    """Between caller and fake only the emitted entry and trampoline run: every instruction of their decoded lists is an
+    unconditional branch, a NOP or a move into the scratch register (rules[0]); the registers written are within the target ABI's
+    caller-saved, non-argument, non-result set (rules[1]); load and branch use the same register (rules[2]). Shared by C13 (all
+    roots) and C10 (forced-boolean roots: "callee-saved registers as after a normal return"). Returns the number decided."""
+    recs = analyse(tm)
+    n = 0
+    for r in recs:
+        if r.role == "other" or r.variant.status != "returned" or not want(r):
+            continue
+        rn = short(r.root)
+        cname = ("/" + r.cls[0]) if r.cls else ""
+        if r.err is not None and not (r.range_problem is not None and r.sim is not None):
+            ck.ob(rules[0], "%s/%s%s/%s/undecodable" % (tm.arch, rn, cname, r.role), tm.target, False,
+                  "%s bytes cannot be decoded: %s" % (r.role, r.err), where(r.ev))
+            continue
+        n += 1
+        sim = r.sim
+        mn = mnemonics(sim)
+        stub = r.repl is None and r.role == "trampoline"
+        allowed_mn = {"x86_64": {"jmp_rel", "jmp_reg", "mov_imm", "nop"} | ({"ret"} if stub else set()),
+                      "aarch64": {"b", "br", "movz", "movk", "nop", "adrp", "add_imm"} | ({"ret"} if stub else set()),
+                      "arm": {"nop", "ldr_lit", "bx", "mov_reg"}}[tm.arch]
+        ins = sim.get("executed") if isinstance(sim.get("executed"), list) else sim["ins"]
+        used = [i["mn"] for i in ins]
+        bad = [u for u in used if u not in allowed_mn]
+        ok1 = not bad and not sim.get("stack") and not sim.get("calls")
+        ck.ob(rules[0], "%s/%s%s/%s/only-branches-and-scratch-moves" % (tm.arch, rn, cname, r.role), tm.target, ok1,
+              "%s sequence: %s%s" % (r.role, mn, ("; not allowed: %s" % bad) if bad else ""), where(r.ev))
+        wr = set(w for w in sim["written"] if not w.startswith("_"))
+        allowed = set(SCRATCH[tm.arch]) | (RESULT[tm.arch] if stub else set())
+        off = sorted(wr - allowed)
+        if off:
+            state = ("T32" if r.cls[2] else "A32") if r.cls else r.role
+            ck.ob(rules[1], "%s/%s/scratch-register/%s" % (tm.arch, state, off[0]), tm.target, False,
+                  "%s sequence (%s) writes %s, outside the caller-saved non-argument set %s: the caller's value of that register is lost "
+                  "across a call to a faked function" % (r.role, mn, ",".join(off), sorted(SCRATCH[tm.arch])), where(r.ev))
+        else:
+            ck.ob(rules[1], "%s/%s%s/%s/scratch-register" % (tm.arch, rn, cname, r.role), tm.target, True,
+                  "%s sequence writes only %s" % (r.role, sorted(wr)), where(r.ev))
+        # R13.3 same register in load and branch
+        t = sim["transfer"]
+        if t and t["kind"] in ("jmp_reg", "br", "bx"):
+            reg = t["reg"]
+            ck.ob(rules[2], "%s/%s%s/%s/load-branch-register" % (tm.arch, rn, cname, r.role), tm.target, reg in wr,
+                  "branch through %s; registers loaded by the sequence: %s" % (reg, sorted(wr)), where(r.ev))
+    return n
